@@ -53,8 +53,12 @@ func rtime32(r *rand.Rand) time.Time {
 func rnetaddr(r *rand.Rand, withTime bool) wire.NetAddress {
 	ip := make(net.IP, 16)
 	r.Read(ip)
-	if r.Intn(2) == 0 {
+	switch r.Intn(3) {
+	case 0:
 		ip = net.IPv4(byte(r.Intn(256)), byte(r.Intn(256)), byte(r.Intn(256)), byte(r.Intn(256))).To16()
+	case 1:
+		// the 4-byte form, as the IP of a *net.TCPAddr of a live IPv4 connection has it
+		ip = net.IP{byte(1 + r.Intn(255)), byte(r.Intn(256)), byte(r.Intn(256)), byte(r.Intn(256))}
 	}
 	na := wire.NetAddress{Services: wire.ServiceFlag(r.Uint64()), IP: ip, Port: uint16(r.Intn(65536))}
 	if withTime {
@@ -195,6 +199,10 @@ func eqVal(a, b reflect.Value) bool {
 	}
 	if a.Type() == reflect.TypeOf(time.Time{}) {
 		return a.Interface().(time.Time).Unix() == b.Interface().(time.Time).Unix()
+	}
+	if a.Type() == reflect.TypeOf(net.IP{}) {
+		// an address is the same address in its 4-byte and its 16-byte form
+		return a.Interface().(net.IP).Equal(b.Interface().(net.IP))
 	}
 	switch a.Kind() {
 	case reflect.Ptr, reflect.Interface:
